@@ -16,6 +16,9 @@
 (*             telling whether the frame had been closed successfully       *)
 (*   failed    the sink has reported a failure                             *)
 (*   done      the current frame has been closed successfully              *)
+(*   hcalls    OnBlockDone callbacks owed for this frame: one per block     *)
+(*             (stored size), and one more per block cut by ReadFrom       *)
+(*             (which also reports the bytes it read)                      *)
 (*                                                                         *)
 (* One action per public call; each mirrors the code path of writer.go:    *)
 (* Write cuts full blocks of exactly B bytes (zero-copy or accumulate path *)
@@ -30,16 +33,16 @@ EXTENDS Integers, Sequences
 CONSTANTS B,            \* block size in bytes
           Legacy        \* legacy frames have no trailer
 
-VARIABLES ws, pending, accepted, items, frames, failed, done
+VARIABLES ws, pending, accepted, items, frames, failed, done, hcalls
 
-wvars == <<ws, pending, accepted, items, frames, failed, done>>
+wvars == <<ws, pending, accepted, items, frames, failed, done, hcalls>>
 
 H == 0 - 1
 T == 0 - 2
 
 Init ==
     /\ ws = "new" /\ pending = 0 /\ accepted = 0
-    /\ items = <<>> /\ frames = <<>> /\ failed = FALSE /\ done = FALSE
+    /\ items = <<>> /\ frames = <<>> /\ failed = FALSE /\ done = FALSE /\ hcalls = 0
 
 \* k full blocks of B bytes
 RECURSIVE Fulls(_)
@@ -55,6 +58,7 @@ Write(n) ==
     /\ pending' = (pending + n) % B
     /\ accepted' = accepted + n
     /\ ws' = "write"
+    /\ hcalls' = hcalls + ((pending + n) \div B)
     /\ UNCHANGED <<frames, failed, done>>
 
 Flush ==
@@ -62,6 +66,7 @@ Flush ==
     /\ items' = items \o Started \o (IF pending > 0 THEN <<pending>> ELSE <<>>)
     /\ pending' = 0
     /\ ws' = "write"
+    /\ hcalls' = hcalls + (IF pending > 0 THEN 1 ELSE 0)
     /\ UNCHANGED <<accepted, frames, failed, done>>
 
 \* Close = Flush, then the trailer (end mark [+ content checksum]); legacy: nothing
@@ -71,6 +76,7 @@ Close ==
                 \o (IF Legacy THEN <<>> ELSE <<T>>)
     /\ pending' = 0
     /\ ws' = "closed" /\ done' = TRUE
+    /\ hcalls' = hcalls + (IF pending > 0 THEN 1 ELSE 0)
     /\ UNCHANGED <<accepted, frames, failed>>
 
 \* ReadFrom a source of n bytes: only on a Writer that has not written yet
@@ -80,18 +86,19 @@ ReadFrom(n) ==
     /\ accepted' = accepted + n
     /\ pending' = 0
     /\ ws' = "write"
+    /\ hcalls' = hcalls + 2 * ((n \div B) + 1)
     /\ UNCHANGED <<frames, failed, done>>
 
 \* Reset: the frame in progress is abandoned as it is; a closed one is archived
 Reset ==
-    /\ frames' = Append(frames, [items |-> items, closed |-> done, accepted |-> accepted])
+    /\ frames' = Append(frames, [items |-> items, closed |-> done, accepted |-> accepted, hcalls |-> hcalls])
     /\ items' = <<>> /\ pending' = 0 /\ accepted' = 0
-    /\ ws' = "new" /\ failed' = FALSE /\ done' = FALSE
+    /\ ws' = "new" /\ failed' = FALSE /\ done' = FALSE /\ hcalls' = 0
 
 \* calls that are refused and change nothing but possibly the lifecycle state
 \* (a refused call leaves the Writer in its error state - that is what the code does - but the frame
 \* that was closed before stays what it was: done is not touched)
-Keep5 == UNCHANGED <<pending, accepted, items, frames, failed, done>>
+Keep5 == UNCHANGED <<pending, accepted, items, frames, failed, done, hcalls>>
 WriteAfterClose == ws \in {"closed", "error"} /\ ws' = "error" /\ Keep5
 CloseAgain      == ws = "closed" /\ UNCHANGED wvars
 ApplyLate       == ws \in {"write", "closed"} /\ ws' = "error" /\ Keep5
@@ -101,7 +108,7 @@ ReadFromLate    == ws \in {"write", "closed"} /\ ws' = "error" /\ Keep5
 SinkFails ==
     /\ ws \in {"new", "write"} /\ ~failed
     /\ failed' = TRUE /\ ws' = "error"
-    /\ UNCHANGED <<pending, accepted, items, frames, done>>
+    /\ UNCHANGED <<pending, accepted, items, frames, done, hcalls>>
 
 \* Flush - alone or as the first half of Close - reports a sink failure but, unlike the other calls,
 \* does not put the Writer into its error state (writer.go: Flush has no state check): the pending
@@ -109,7 +116,7 @@ SinkFails ==
 FlushFails ==
     /\ ws \in {"new", "write"} /\ ~failed
     /\ failed' = TRUE
-    /\ UNCHANGED <<ws, pending, accepted, items, frames, done>>
+    /\ UNCHANGED <<ws, pending, accepted, items, frames, done, hcalls>>
 
 \* ---- properties -----------------------------------------------------------
 IsBlock(x) == x >= 0
@@ -133,6 +140,9 @@ BlocksAreFull ==
     \A k \in 1 .. Len(items) : IsBlock(items[k]) => items[k] <= B
 
 PendingBounded == pending >= 0 /\ pending < B
+
+\* one callback per block, one more per ReadFrom block
+HandlerAccounting == hcalls >= Len(SelectSeq(items, IsBlock)) /\ hcalls <= 2 * Len(SelectSeq(items, IsBlock))
 
 AtMostOneHeader ==
     \A i, j \in 1 .. Len(items) : (items[i] = H /\ items[j] = H) => i = j
